@@ -196,6 +196,28 @@ def adduct_homogeneity(ctx, rep, clause):
     rep.floor('AFF-degree', 'additive terms in _parse_adduct_mass', k, 5)
 
 
+def isotope_selection(ctx, rep, clause):
+    """element_setup.py: every table builder orders the isotopes of an element the same way (most abundant first),
+    so that "monoisotopic" means the same isotope in the mass table, the average table and the isotope pattern"""
+    program = ctx.program
+    n = 0
+    for f in program.all_functions():
+        if f.module.name != 'peptacular.element_setup':
+            continue
+        for node in walk_own(f.node):
+            if isinstance(node, ast.Call) and isinstance(node.func, ast.Attribute) and node.func.attr == 'sort' and \
+                    'infos' in norm_stmt(node.func.value):
+                n += 1
+                kws = {kw.arg: norm_stmt(kw.value) for kw in node.keywords}
+                key = kws.get('key', '')
+                ok = key.replace(' ', '') == 'lambdax:x.isotopic_composition' and kws.get('reverse') == 'True'
+                ob(rep, 'SIB-isotope-order', f.fq, f'`{norm_stmt(node)[:70]}` orders isotopes by abundance, descending',
+                   ok, 'most abundant isotope first (the monoisotopic one)',
+                   f'`{norm_stmt(node)}` orders the isotopes differently from its siblings: this table picks another '
+                   f'isotope as "monoisotopic" than the others (wrong for Se, Li, B, Fe, ...)', f.loc(node), clause)
+    rep.floor('SIB-isotope-order', 'isotope orderings in element_setup.py', n, 9)
+
+
 def run(ctx, rep):
     an, program = ctx.analyzer, ctx.program
     # (a) forwarding of the mono/average switch over the whole mass call graph
@@ -215,6 +237,17 @@ def run(ctx, rep):
                  'C02c')
     k += add_ret(rep, param_reaches_returns(an, program, 'peptacular.chem.chem_util:chem_mass',
                                             ['formula', 'monoisotopic']), 'C02c')
+    numeric = {('monoisotopic', 'return mod'): 'a numeric shift has no isotopic mode',
+               ('monoisotopic', 'return round(mod, precision) if precision is not None else mod'):
+                   'a numeric shift has no isotopic mode',
+               ('monoisotopic', 'return 0.0'): 'a bare localisation tag weighs nothing in either mode',
+               ('monoisotopic', 'return None'): 'unresolved: the caller raises',
+               ('monoisotopic', 'return _parse_obs_mass_from_proforma_str(mod, precision)'):
+                   'an observed mass is a number: it has no isotopic mode'}
+    k += add_ret(rep, param_reaches_returns(an, program, 'peptacular.mass_calc:mod_mass', ['mod', 'monoisotopic'],
+                                            exempt=numeric), 'C02c')
+    k += add_ret(rep, param_reaches_returns(an, program, 'peptacular.mass_calc:_parse_mod_mass',
+                                            ['mod', 'monoisotopic'], exempt=numeric), 'C02c')
     rep.floor('RET', 'parameter/return pairs', k, 30)
     # (d)
     mono_avg_pairing(ctx, rep, 'C02d')
@@ -227,6 +260,7 @@ def run(ctx, rep):
     add_checks(rep, rt.reference_checks(t), 'C02f')
     add_checks(rep, rt.isotope_table_checks(program), 'C02f', 'peptacular.data', 'chem.txt')
     add_checks(rep, rt.derived_table_checks(program), 'C02f', 'peptacular.chem.chem_constants')
+    isotope_selection(ctx, rep, 'C02f')
 
 
 def check(ctx, rep):
